@@ -329,6 +329,11 @@ impl Prop for PRegex {
         if rng.chance(1, 3) {
             alpha.extend([233u32, 26085, 233]);
         }
+        // ... and one in five with a newline among the characters: '.' matches it in every syntax but emacs, a negated
+        // bracket expression in all of them
+        if rng.chance(1, 5) {
+            alpha.extend([10u32, 10]);
+        }
         let size = 1 + rng.below(if tier == "thorough" { 12 } else { 8 });
         let syn = *rng.pick(&["emacs", "posix-basic", "posix-extended", "grep", "ed", "sed", "none"]);
         let eff = if syn == "none" { "emacs" } else { syn };
